@@ -16,6 +16,7 @@ import (
 	"strings"
 	"sync"
 	"sync/atomic"
+	"testing"
 	"time"
 
 	"github.com/AdguardTeam/AdGuardDNS/internal/access"
@@ -314,7 +315,9 @@ func (u *upstreamFn) answer(req *dns.Msg) *dns.Msg {
 	resp.SetReply(req)
 	resp.RecursionAvailable = true
 	resp.AuthenticatedData = h%3 == 0
-	hdr := func(t uint16) dns.RR_Header { return dns.RR_Header{Name: name, Rrtype: t, Class: dns.ClassINET, Ttl: ttl} }
+	hdr := func(t uint16) dns.RR_Header {
+		return dns.RR_Header{Name: name, Rrtype: t, Class: dns.ClassINET, Ttl: ttl}
+	}
 	soa := func() dns.RR {
 		return &dns.SOA{Hdr: hdr(dns.TypeSOA), Ns: "ns." + name, Mbox: "hostmaster." + name, Serial: h, Refresh: 3600, Retry: 600, Expire: 86400, Minttl: ttl}
 	}
@@ -903,15 +906,10 @@ func shapeOf(m *dns.Msg) string {
 	return fmt.Sprintf("%s/an=%d/first=%s%s", dns.RcodeToString[m.Rcode], len(m.Answer), first, blocked)
 }
 
-func runStackMonitor(r *vkit.Run, httpsDefect bool) {
+func runStackMonitor(t *testing.T, r *vkit.Run, httpsDefect bool) {
 	scratch := os.Getenv("VERIF_SCRATCH")
 	if scratch == "" {
-		var err error
-		if scratch, err = os.MkdirTemp("", "c07-"); err != nil {
-			r.Inconclusive("no scratch dir: " + err.Error())
-			return
-		}
-		defer os.RemoveAll(scratch)
+		scratch = t.TempDir()
 	}
 	maxHints := 8
 	if httpsDefect {
